@@ -1,13 +1,12 @@
 SPECIFICATION Spec
 CONSTANTS
-  UserSeq <- U2
+  UserSeq <- U3
   Entry = "p/m1"
   G = "global"
   MaxLits = 1
-  Ordered = TRUE
+  Ordered = FALSE
   AllowMissing = FALSE
-  DiagChoices = {0}
-  Rounds = 1
+  DiagChoices = {0, 4}
+  Rounds = 3
 INVARIANTS Acyclic CycleRejected DagBuilds ParsedOnce TopoOK EmitTerminal
-VIEW View
 CHECK_DEADLOCK FALSE
